@@ -2,7 +2,7 @@
 
 from . import excs
 
-DEST_EXCS = [excs.DestFault, excs.DestFaultBadStr, excs.BadStrRaisesBase, ValueError, KeyError, OSError, UnicodeError, excs.DeepUserError, excs.RemoteError, excs.Outer.NestedError, excs.make_local_error_class()]
+DEST_EXCS = [TimeoutError, excs.DestFault, excs.DestFaultBadStr, excs.BadStrRaisesBase, ValueError, KeyError, OSError, UnicodeError, excs.DeepUserError, excs.RemoteError, excs.Outer.NestedError, excs.make_local_error_class()]
 
 
 def gen_mask(rng, horizon):
@@ -34,6 +34,11 @@ def exc_factory(rng):
         else:
             stored = cls("stored destination failure")
         return cls.__name__ + ":same-object", (lambda i, stored=stored: stored)
+
+    if cls in (excs.DestFault, ValueError, KeyError, OSError, excs.DeepUserError, TimeoutError) and rng.random() < 0.2:
+        # raised without arguments (`raise TimeoutError()`) or with "": the exception's text is the empty string
+        noargs = rng.random() < 0.5
+        return cls.__name__ + ":empty-text", (lambda i, cls=cls, noargs=noargs: cls() if noargs else cls(""))
 
     def make(i, cls=cls):
         if cls is OSError:
